@@ -52,7 +52,7 @@ func (p prov) isParamField(param *ssa.Parameter, fields ...string) bool {
 }
 
 type provEnv struct {
-	chain []*ssa.Call            // call chain from the root function (outermost first)
+	chain []*ssa.Call                // call chain from the root function (outermost first)
 	bind  map[*ssa.FreeVar]ssa.Value // extra free-variable bindings (bound-method receivers)
 	depth int
 }
